@@ -597,7 +597,9 @@ fn is_assignment(op: &ast::BinOp) -> bool {
 /// Interesting values per literal kind (all have a spelling: non-negative, not NaN, not -0.0)
 fn literal_pool(allow_inf: bool) -> Vec<ast::Literal> {
     use ast::Literal as L;
-    let mut v = vec![L::Bool(true), L::Bool(false), L::String("abc".to_string()), L::String("a b, c;".to_string()), L::String(String::new())];
+    let mut v = vec![L::Bool(true), L::Bool(false), L::String("abc".to_string()), L::String("a b, c;".to_string()), L::String(String::new()),
+        // the lexer has no escape sequences: a backslash is a character like any other, and so are comment openers and `#`
+        L::String("shaders\\common".to_string()), L::String("a\\\\b\\n".to_string()), L::String("\\".to_string()), L::String("x // y /* z */ #w".to_string()), L::String("'".to_string())];
     for x in [0u64, 1, 7, 8, 9, 10, 255, (1 << 31) - 1, 1 << 31, (1 << 32) - 1, 1 << 32, (1 << 63) - 1, 1 << 63, u64::MAX] {
         v.push(L::IntUntyped(x));
         v.push(L::IntUnsigned32(x));
